@@ -135,6 +135,8 @@ package cstate
 // ---------------------------------------------------------------- C12: the change set is computed against the set it is applied to
 // Ghost: the height the evidence pool's clock (its copy of the state, which drives expiry) stands at.
 //@ ghost field EvidencePool.clock mathint
+//@ trusted func (p EvidencePool) CheckEvidence(evList types.EvidenceList) (err error)
+//@   modifies nothing
 //@ trusted func (p EvidencePool) Update(state LatestBlockState, ev types.EvidenceList)
 //@   modifies p.clock
 //@   ensures p.clock == state.LastBlockHeight
@@ -190,3 +192,13 @@ package cstate
 //@   atcall BytesToHash requires [keyFromTheMarshalledRecord] sameArray(b, result(ConsensusParamsInfo.Marshal, 0)) && len(b) == len(result(ConsensusParamsInfo.Marshal, 0))
 //@   atcall WriteConsensusParamsInfo requires [storedUnderThatKey] hash == result(BytesToHash) && paramsInfo.LastHeightChanged == lastHeightChanged
 //@   ensures [returnsTheKey] r == result(BytesToHash)
+
+// Verified aspect: validating a block a peer proposed never panics, whatever the block -- in particular a
+// FIRST block that carries no LastCommit at all (Block.ValidateBasic lets a nil LastCommit through up to
+// height 1). The state's own sets are the node's (non-nil); callee preconditions are assumed.
+//@ aspect func validateBlock(evidencePool EvidencePool, store Store, state LatestBlockState, block *types.Block) (err error)
+//@   for C18
+//@   safe
+//@   requires block != nil && block.header != nil && block.evidence != nil && evidencePool != nil && state.Validators != nil && state.NextValidators != nil && state.LastValidators != nil
+//@   modifies *
+//@   opt assumecallreqs
